@@ -27,7 +27,7 @@ def run(ctx):
     D = discr_map(F)
     t1_letters(ctx, F, D)
     em, sym = emissions(F.fn(WRITER), F, recv="result")
-    ctx.floor("C11.T7", "string emissions in Game::fen", len(em), 18)
+    ctx.floor("C11.T7", "string emissions in Game::fen", len(em), 8)
     writer_board(ctx, F, em)
     writer_fields(ctx, F, em)
     reader(ctx, F)
@@ -157,99 +157,111 @@ def writer_board(ctx, F, em):
               found={"increment": inc, "reset_after_flush": reset, "initialised_per_rank": init_in_rank})
 
 
-def writer_fields(ctx, F, em):
+def writer_text(F, rights, side, ep):
+    """Text Game::fen produces after the piece placement for a state with these castling rights (dict), side to move and
+    en-passant value (0..7, 8 = none): the function is summarised symbolically (helpers expanded, literal-array loops
+    unrolled, the placement loops left opaque) and folded under the assumptions.  Returns (list of parts, error)."""
+    from . import inline
     fn = F.fn(WRITER)
-    top = [e for e in em if not e[3]]
-    spaces = [e for e in top if _is(e[2], " ")]
-    ctx.check("C11.T7", "writer:five-separators", len(spaces) == 5, fn=WRITER, file=fn["file"],
-              what="a FEN has six fields: exactly five unconditional ' ' separators", expected=5, found=len(spaces))
-    # order of top-level emissions between separators
-    order = []
-    for e in em:
-        if e in spaces:
-            order.append("SP")
-        elif not loop_binders(e[3]):
-            order.append(e)
-    fields, cur = [], []
-    for x in order:
-        if x == "SP":
-            fields.append(cur)
-            cur = []
+    cache = getattr(F, "_fen_summary", None)
+    if cache is None:
+        h = inline.unroll_literal_loops(fn["hir"])
+        ex = hir.Exec(h, F, tolerant=True)
+        cache = ex.run()
+        F._fen_summary = cache
+    ST = ("call", "chess::Game::state", (("var", "self"),))
+    a = {("field", ("var", "self"), "current_player"): ("variant", PL + side),
+         ("call", "chess::Game::player", (("var", "self"),)): ("variant", PL + side),
+         ("call", "chess::gamestate::GameState::en_passant", (ST,)): ("lit", ep)}
+    for k, v in rights.items():
+        a[("call", "chess::gamestate::GameState::%s_castling" % k, (ST,))] = ("lit", v)
+    v = hir.fold(cache, a, discr_map(F), hir.table_helpers(F))
+    if not (isinstance(v, tuple) and v and v[0] == "str"):
+        return None, "summary does not fold to a string: %s" % hir.fmt(v, 160)
+    parts = []
+    for p_ in v[1:]:
+        x = p_[1]
+        if p_[0] in ("ch", "s") and x[0] == "lit" and isinstance(x[1], str):
+            parts.append(x[1])
+        elif x[0] == "opaque":
+            parts.append(("LOOP",))
         else:
-            cur.append(x)
-    fields.append(cur)
-    ok6 = len(fields) == 6
-    ctx.check("C11.T7", "writer:six-fields", ok6, fn=WRITER, file=fn["file"], what="field structure of the writer",
-              expected=6, found=len(fields), nontrivial=False)
-    if not ok6:
+            parts.append(("TERM", hir.fmt(x, 200)))
+    return parts, None
+
+
+def writer_fields(ctx, F, em):
+    """Fields 2-6 of the FEN writer, decided by evaluating the writer for every combination of side (2), castling rights
+    (16) and en-passant value (9) and comparing the text after the piece placement with the FEN grammar."""
+    fn = F.fn(WRITER)
+    RIGHTS = (("white_king", "K"), ("white_queen", "Q"), ("black_king", "k"), ("black_queen", "q"))
+    bad = {"side": [], "castling": [], "ep": [], "shape": [], "tail": []}
+    n_cases = 0
+    err = None
+    fm_terms = set()
+    try:
+        for side in ("White", "Black"):
+            for mask in range(16):
+                rights = {k: bool(mask >> i & 1) for i, (k, _) in enumerate(RIGHTS)}
+                for ep in range(9):
+                    if mask not in (0, 15, 5, 10) and ep not in (0, 8):
+                        continue        # rights and en passant are written independently: the full product adds nothing
+                    parts, err = writer_text(F, rights, side, ep)
+                    if err:
+                        raise ValueError(err)
+                    n_cases += 1
+                    # text after the last opaque (placement) chunk
+                    idx = max([i for i, p_ in enumerate(parts) if p_ == ("LOOP",)] or [-1])
+                    tail = parts[idx + 1:]
+                    if idx < 0 or any(p_ == ("LOOP",) for p_ in tail):
+                        bad["shape"].append((side, mask, ep, "no placement loop before the fields"))
+                        continue
+                    txt = "".join(p_ if isinstance(p_, str) else "\x00" for p_ in tail)
+                    terms = [p_[1] for p_ in tail if not isinstance(p_, str)]
+                    f = txt.split(" ")
+                    if len(f) != 6 or f[0] != "":
+                        bad["shape"].append((side, mask, ep, txt.replace("\x00", "<?>")))
+                        continue
+                    want_c = "".join(ch for k, ch in RIGHTS if rights[k]) or "-"
+                    want_e = "-" if ep == 8 else "abcdefgh"[ep] + ("6" if side == "White" else "3")
+                    if f[1] != ("w" if side == "White" else "b"):
+                        bad["side"].append((side, f[1]))
+                    if f[2] != want_c:
+                        bad["castling"].append((want_c, f[2]))
+                    if f[3] != want_e:
+                        bad["ep"].append((side, ep, want_e, f[3]))
+                    if not (f[4].isdigit() and f[5] == "\x00" and len(terms) == 1):
+                        bad["tail"].append((f[4], f[5].replace("\x00", "<?>")))
+                    fm_terms |= set(terms)
+    except (hir.Unsupported, ValueError, KeyError, RecursionError) as e:
+        err = str(e)
+    ok_sum = err is None and n_cases > 0
+    ctx.check("C11.T7", "writer:summarisable", ok_sum, fn=WRITER, file=fn["file"], nontrivial=False,
+              what="Game::fen can no longer be evaluated per state (unsupported shape): %s" % err, found=n_cases)
+    if not ok_sum:
         return
-    # field 2: side
-    side = fields[1]
-    want = ("match", ("field", ("var", "self"), "current_player"),
-            ((("variant", PL + "White"), None, ("lit", "w")), (("variant", PL + "Black"), None, ("lit", "b"))))
-    ok = len(side) == 1 and _match_table(side[0][2]) == {PL + "White": "w", PL + "Black": "b"} \
-        and side[0][2][1] == ("field", ("var", "self"), "current_player")
-    ctx.check("C11.T4", "writer:side-letter", ok, fn=WRITER, file=fn["file"], line=hir.line(side[0][0]) if side else None,
+    ctx.check("C11.T7", "writer:six-fields", not bad["shape"], fn=WRITER, file=fn["file"],
+              what="after the piece placement the writer must produce exactly ' side castling en-passant halfmove fullmove' (five separators)",
+              expected="' w KQkq - 0 <n>'", found=bad["shape"][:3] or "%d states evaluated" % n_cases)
+    ctx.check("C11.T4", "writer:side-letter", not bad["side"], fn=WRITER, file=fn["file"],
               what="side to move must be written as 'w' for White and 'b' for Black of the game's current player",
-              expected=hir.fmt(want, 120), found=[hir.fmt(x[2], 120) for x in side])
-    # field 3: castling
-    cast = fields[2]
-    seq = []
-    for e in cast:
-        g = [x for x in e[3] if x[0] == "if"]
-        seq.append((e[2][1] if e[2][0] == "lit" else hir.fmt(e[2], 40), [(hir.fmt(x[1], 90), x[2]) for x in g]))
-    exp = [("K", "white_king"), ("Q", "white_queen"), ("k", "black_king"), ("q", "black_queen")]
-    ok = len(seq) == 5
-    if ok:
-        for (ch, right), (got_ch, g) in zip(exp, seq[:4]):
-            want_g = "GameState::%s_castling(Game::state(self))" % right
-            ok = ok and got_ch == ch and g == [(want_g, True)]
-        ok = ok and seq[4][0] == "-" and len(seq[4][1]) == 1
-    ctx.check("C11.T5", "writer:castling-letters", ok, fn=WRITER, file=fn["file"], line=hir.line(cast[0][0]) if cast else None,
+              expected={"White": "w", "Black": "b"}, found=bad["side"][:3] or "ok")
+    ctx.check("C11.T5", "writer:castling-letters", not bad["castling"], fn=WRITER, file=fn["file"],
               what="castling field must be K,Q,k,q (in that order) for the four rights of the current state, '-' iff none",
-              expected=[(c, r) for c, r in exp] + ["- iff none"], found=seq)
-    # '-' iff none: the flag is set in each of the four branches
-    body = fn["hir"]["body"]
-    flag_sets = 0
-    dash = cast[4] if len(cast) == 5 else None
-    flag = None
-    if dash:
-        g = [x for x in dash[3] if x[0] == "if" and x[2] is False and x[1][0] == "var"]
-        if g:
-            flag = g[-1][1][1]
-    if flag:
-        for n, anc in hir.walk(body):
-            if n.get("k") == "Assign" and hir.strip(n["l"]).get("to", {}).get("name") == flag and hir.strip(n["r"]).get("v") is True:
-                flag_sets += 1
-    ctx.check("C11.T5", "writer:dash-iff-no-right", flag is not None and flag_sets == 4, fn=WRITER, file=fn["file"],
-              what="'-' must be written exactly when none of the four rights was written", expected="flag set in all four branches",
-              found={"flag": flag, "sets": flag_sets})
-    # field 4: en passant
-    ep = fields[3]
-    epg = "(GameState::en_passant(Game::state(self)) < 8)"
-    ok = len(ep) == 3
-    found = [(hir.fmt(e[2], 100), [(hir.fmt(x[1], 80), x[2]) for x in e[3] if x[0] == "if"]) for e in ep]
-    if ok:
-        file_ok = hir.fmt(ep[0][2], 100) in ("((97 + (GameState::en_passant(Game::state(self)) as u8)) as char)",
-                                               "(((GameState::en_passant(Game::state(self)) as u8) + 97) as char)")
-        rank_ok = _match_table(ep[1][2]) == {PL + "White": "6", PL + "Black": "3"} and \
-            ep[1][2][1] == ("field", ("var", "self"), "current_player")
-        g_ok = found[0][1] == [(epg, True)] and found[1][1] == [(epg, True)] and found[2] == ("'-'", [(epg, False)])
-        ok = file_ok and g_ok
-        ctx.check("C11.T6", "writer:en-passant-rank-by-side", rank_ok, fn=WRITER, file=fn["file"], line=hir.line(ep[1][0]),
-                  what="the en-passant target lies behind the pawn that just moved: rank 6 when White is to move, rank 3 when Black is",
-                  expected={"White": "6", "Black": "3"}, found=hir.fmt(ep[1][2], 120))
-    ctx.check("C11.T6", "writer:en-passant-file-and-dash", ok, fn=WRITER, file=fn["file"], line=hir.line(ep[0][0]) if ep else None,
+              expected="subset of KQkq in order | '-'", found=[("want %s" % w, "got %s" % g) for w, g in bad["castling"][:4]] or "all 16 right sets")
+    ctx.check("C11.T5", "writer:dash-iff-no-right", not [x for x in bad["castling"] if "-" in x], fn=WRITER, file=fn["file"],
+              what="'-' must be written exactly when none of the four rights was written", found=[x for x in bad["castling"] if "-" in x][:3] or "ok")
+    ctx.check("C11.T6", "writer:en-passant-rank-by-side", not [x for x in bad["ep"] if x[1] != 8 and x[3][:1] == x[2][:1]], fn=WRITER, file=fn["file"],
+              what="the en-passant target lies behind the pawn that just moved: rank 6 when White is to move, rank 3 when Black is",
+              expected={"White": "6", "Black": "3"}, found=[x for x in bad["ep"] if x[1] != 8][:3] or "ok")
+    ctx.check("C11.T6", "writer:en-passant-file-and-dash", not bad["ep"], fn=WRITER, file=fn["file"],
               what="en-passant field must be file 'a'+ep followed by the rank when ep < 8, '-' otherwise",
-              expected="'a'+ep, rank | '-'", found=found)
-    # fields 5, 6
-    hm, fm = fields[4], fields[5]
-    ctx.check("C11.T7", "writer:halfmove-field", len(hm) == 1 and hm[0][2][0] == "lit", fn=WRITER, file=fn["file"],
-              what="fifth field (half-move clock) must be a number", found=[hir.fmt(x[2], 60) for x in hm])
-    want_fm = "<T as std::string::ToString>::to_string(((<T, A>::len(self.move_stack) / 2) + 1))"
-    ctx.check("C11.T7", "writer:fullmove-field", len(fm) == 1 and hir.fmt(fm[0][2], 200).endswith("to_string(((<T, A>::len(self.move_stack) / 2) + 1))"),
-              fn=WRITER, file=fn["file"], what="sixth field must be len(move_stack)/2 + 1", expected=want_fm,
-              found=[hir.fmt(x[2], 200) for x in fm])
+              expected="'a'+ep, rank | '-'", found=bad["ep"][:4] or "ep 0..8 x both sides")
+    ctx.check("C11.T7", "writer:halfmove-field", not [x for x in bad["tail"] if not x[0].isdigit()], fn=WRITER, file=fn["file"],
+              what="fifth field (half-move clock) must be a number", found=bad["tail"][:2] or "ok")
+    fm_ok = not bad["tail"] and len(fm_terms) == 1 and list(fm_terms)[0].endswith("to_string(((<T, A>::len(self.move_stack) / 2) + 1))")
+    ctx.check("C11.T7", "writer:fullmove-field", fm_ok, fn=WRITER, file=fn["file"], what="sixth field must be len(move_stack)/2 + 1",
+              expected="to_string(len(move_stack) / 2 + 1)", found=sorted(fm_terms)[:2])
 
 
 _FACTS = [None]
